@@ -196,6 +196,11 @@ def write_viewer_caches(home, gen=0):
         second.append((k[0], k[1], cur[k]))
     # something for another region and an unrelated object too
     a.append((77, 1, cur[sorted(CACHED)[0]]))
+    # in front of everything else, in both files: entries of the largest and the smallest size the format allows (10000 bytes, 1
+    # byte) for objects nobody asks about - a reader that mis-steps over them loses every entry behind them
+    a.insert(0, (78, 2, bytes(10000)))
+    b.insert(0, (79, 3, b"\x07"))
+    b.insert(1, (78, 4, bytes(9999)))
     write_viewer_dir(os.path.join(home, ".viewer_one"), {HA: (CACHE_ID_A.bytes and __import__("uuid").UUID(int=CACHE_ID_A.int), a),
                                                          ((2000 * 256) << 32) | (2001 * 256):
                                                              (__import__("uuid").UUID(int=5), [(6, 43, cur[(6, 43)])])})
